@@ -230,6 +230,7 @@ pub struct Exec {
 }
 
 pub struct Real {
+    pub snapshot: Vec<(u64, Vec<u8>)>,
     pub dir: PathBuf,
     pub log: Option<MultiRecordLog>,
     pub pol: Pol,
@@ -253,7 +254,7 @@ impl Real {
     pub fn new(dir: PathBuf) -> Real {
         let _ = std::fs::remove_dir_all(&dir);
         std::fs::create_dir_all(&dir).unwrap();
-        Real { dir, log: None, pol: Pol::AlwaysFlush, cursor: (0, 0), all_events: Vec::new() }
+        Real { snapshot: Vec::new(), dir, log: None, pol: Pol::AlwaysFlush, cursor: (0, 0), all_events: Vec::new() }
     }
 
     pub fn cleanup(&mut self) {
@@ -390,6 +391,58 @@ impl Real {
                 out.push(line);
             }
             Op::Crash { .. } => {}
+            Op::Close => {
+                if self.log.is_some() {
+                    self.log = None;
+                    self.all_events.push(Event::Flush);
+                }
+            }
+            Op::Snapshot => self.snapshot = read_dir_image(&self.dir),
+            Op::Restore => {
+                self.log = None;
+                for (f, _) in read_dir_image(&self.dir) {
+                    let _ = std::fs::remove_file(self.dir.join(wal_name(f)));
+                }
+                for (f, c) in &self.snapshot {
+                    std::fs::write(self.dir.join(wal_name(*f)), c).unwrap();
+                }
+            }
+            Op::Poke { file, off, data } => {
+                let path = self.dir.join(wal_name(*file));
+                if let Ok(mut c) = std::fs::read(&path) {
+                    let off = *off as usize;
+                    if c.len() < off + data.len() {
+                        c.resize(off + data.len(), 0);
+                    }
+                    c[off..off + data.len()].copy_from_slice(data);
+                    std::fs::write(&path, c).unwrap();
+                }
+            }
+            Op::SetLenFile { file, len } => {
+                let path = self.dir.join(wal_name(*file));
+                if let Ok(mut c) = std::fs::read(&path) {
+                    c.resize(*len as usize, 0);
+                    std::fs::write(&path, c).unwrap();
+                }
+            }
+            Op::RmFile(f) => {
+                let _ = std::fs::remove_file(self.dir.join(wal_name(*f)));
+            }
+            Op::CopyFile { src, dst } => {
+                if let Ok(c) = std::fs::read(self.dir.join(wal_name(*src))) {
+                    std::fs::write(self.dir.join(wal_name(*dst)), c).unwrap();
+                }
+            }
+            Op::CopyBlock { f1, i1, f2, i2 } => {
+                let b = BLOCK as usize;
+                if let (Ok(c1), Ok(mut c2)) = (std::fs::read(self.dir.join(wal_name(*f1))), std::fs::read(self.dir.join(wal_name(*f2)))) {
+                    let (a, z) = (*i1 as usize * b, *i2 as usize * b);
+                    if c1.len() >= a + b && c2.len() >= z + b {
+                        c2[z..z + b].copy_from_slice(&c1[a..a + b]);
+                        std::fs::write(self.dir.join(wal_name(*f2)), c2).unwrap();
+                    }
+                }
+            }
             _ => {
                 if self.pol.tick() {
                     advance_clock();
